@@ -65,11 +65,17 @@ func genValue(r *rand.Rand, api string, headers []string, o HistOpts, cl vkit.Cl
 		for k := range c {
 			cl[k] = true
 		}
+		if r.IntN(7) == 0 {
+			return textCarrier(r, s, cl)
+		}
 		return Val{Kind: "str", S: s}
 	case "ssnap":
 		s, c := vkit.Text(r, vkit.TextOpts{Headers: headers, NoHuge: o.NoHuge, CREOL: true})
 		for k := range c {
 			cl[k] = true
+		}
+		if r.IntN(7) == 0 {
+			return textCarrier(r, s, cl)
 		}
 		return Val{Kind: "str", S: s}
 	case "json", "sjson":
@@ -441,6 +447,9 @@ func (s *Sess) RunProcessN(r *rand.Rand, h *History, m vkit.Mode, noColor bool, 
 			mutate(e.plan, e.next, &op)
 		}
 		e.next++
+		if s.BeforeStep != nil {
+			s.BeforeStep(op)
+		}
 		res := s.Step(e.t, op, m)
 		return onStep(op, res)
 	}
